@@ -114,6 +114,39 @@ def run(ctx):
                       restorekeys=["PEd25519", "P1024", "P2048", "P1024-N", "PEd25519-S", "PEd25519-M"])
     traces += t
     silent += [("shipped",) + x for x in s]
+    # many short-lived parameter sets: each is created, used and DROPPED (so that object identities are recycled); state
+    # saved under the previous set must be refused under the next one, state saved under a set must restore under it
+    sp = load_repo()
+    G263 = uni.group("i263")
+    r = Run("short-lived-parameter-sets", uni)
+    prev = None
+    import gc
+    for k in range(500 if thorough else 260):
+        name = "Ptmp%d" % k
+        seeds = dict(M=b"tmpM%d" % k, N=b"tmpN%d" % (k // 2), S=b"tmpS%d" % (k // 3))
+        try:
+            P = sp.params._Params(G263, **seeds)
+        except AssertionError:
+            continue                      # a degenerate seed (finding F7)
+        uni.params[name] = P
+        uni.pdesc[name] = {"grp": "i263", "M": hx(seeds["M"]), "N": hx(seeds["N"]), "S": hx(seeds["S"])}
+        cls = "ABS"[(k // 2) % 3]             # two consecutive sets share a class
+        r.new("s%d" % k, cls, name, b"pw", b"a", b"b" if cls != "S" else b"")
+        r.start("s%d" % k, mp.stream_for("i263", 5 + k % 100))
+        blob = r.serialize("s%d" % k)
+        if prev is not None and k % 2 == 1:
+            r.restore("x%d" % k, cls, name, prev)             # saved under the previous, now dead, parameter set (other M seed)
+        if blob is not None and k % 5 == 0:
+            r.restore("y%d" % k, cls, name, blob)
+        prev = blob
+        # drop every reference to the parameter object and to the sessions that hold it
+        del uni.params[name]
+        for v in [v for v in r.inst if v.endswith("%d" % k)]:
+            r.t.objs.pop(r.inst[v], None)
+        del P
+        if k % 50 == 0:
+            gc.collect()
+    traces.append(r.json())
     ctx.validate(traces, uni, what="restore matrix")
     # a restore that silently yields a different outbound message: F6 iff the sets differ only in the generator
     for where, scls, sk, rcls, rk, sent, got in silent:
